@@ -317,7 +317,11 @@ impl Part for TwinPart {
 }
 
 pub fn run(ctx: &Ctx, report: &mut Report) -> EvidenceMeta {
+    ctx.replay_corpus("wire_bytes", report);
     ctx.run_part(&TwinPart, report);
+    if ctx.tier == Tier::Thorough {
+        ctx.fuzz_campaign("wire_bytes", 20_000_000, 300, report);
+    }
     EvidenceMeta {
         level: "exploration",
         rule: "proptest twin runs: a random base history (datagrams of every kind, timers, API calls, custom broadcasts; FixCodec/VarCodec/PostcardCodec; packet sizes 60..200 and 1400) is executed three times from the same seed: twice as is (determinism) and once with 1..7 insertion points each carrying 1..3 candidate rejected inputs. A candidate is inserted only if the harness's own structural classifier (not Foca) puts it in a class the statement names (oversized, header undecodable, member list undecodable, from own identity/address, stray byte after header, Announce with data, not addressed to the instance, stale-epoch timer from the instance's own past, reuse_down_identity when not Defunct, change_identity(current), invalid config, empty/oversized add_broadcast); otherwise it is counted as skipped. Oracle: each inserted call emits nothing and leaves every getter and the hook snapshot unchanged, and every base call has identical concrete arguments, result, sends, timers, notifications, handler calls and after-state in all three runs. Non-trivial: >= 3 different rejection classes inserted, at least one while a probe round is open and one while updates are pending; distinct = (set of classes, codec)."
@@ -330,6 +334,7 @@ pub fn run(ctx: &Ctx, report: &mut Report) -> EvidenceMeta {
 
 pub fn replay(part_name: &str, case: &Value) -> Option<Result<(), Fail>> {
     match part_name {
+        p if p.starts_with("fuzz:") => replay_fuzz(p, case),
         "twin-histories" => Some(replay_with(&TwinPart, case)),
         _ => None,
     }
